@@ -27,6 +27,8 @@ ABS = '/nonexistent-verif'
 def resolve(cwd, p):
     if p is None or p == '':
         return cwd
+    if p.startswith('~'):
+        return os.path.expanduser(p)
     if p.startswith('/'):
         return p
     return cwd + '/' + p
@@ -38,7 +40,7 @@ def gen_scenario(rng, parallel=False, small=False):
     texts = [['make a'], ['make b'], ['cd sub', 'make c']]
     n_scripts = rng.choice([0, 1, 1, 2, 2, 3])
     pool = texts[:n_scripts]
-    dirs = rng.choice([[None], ['d1'], [None, 'd1'], ['d1', 'd2'], ['d1', ABS + '/x'], [None, 'd1', 'd2']])
+    dirs = rng.choice([[None], ['d1'], [None, 'd1'], ['d1', 'd2'], ['d1', ABS + '/x'], [None, 'd1', 'd2'], ['d1', '~/vb']])
     executors, suites = [], []
     for i in range(n_exec):
         executors.append({
@@ -229,7 +231,7 @@ def canon_events(wd, bs, order):
 def model_request(sc, wd, order, repaired=True, picks=None):
     setup_only = '--setup-only' in sc['flags']
     return {
-        'op': 'c13.session', 'cwd': wd,
+        'op': 'c13.session', 'cwd': wd, 'home': os.path.expanduser('~'),
         'executors': [{'name': e['name'], 'path': e['path'], 'build': e['build'],
                        'env': None if e['env'] is None else env_list(e['env'])} for e in sc['executors']],
         'suites': [{'name': s['name'], 'location': s['location'], 'build': s['build'],
@@ -434,7 +436,8 @@ def check_batch(ck, scenarios, base_idx=0, search=True):
         if dis:
             ck.disagree('c13.session: event sequence / statuses vs RB.Builds', inp, impl_obs, model_obs,
                         THEOREMS_SEQ + (['RB.Builds.c13_build_once_par'] if parallel else []))
-            if search and not bad:
+            if search and not bad and ck.dist.get('neighbourhood-searches', 0) < 3:
+                ck.count('neighbourhood-searches')
                 neighbourhood(ck, sc)
 
 
@@ -488,6 +491,8 @@ def pattern_scenarios():
     # three scripts, envs on both levels
     pats.append(([ex('E1', 'd1', A, {'E': 'e1'}), ex('E2', 'd2', B, {'E': 'e2'}), ex('E3', 'd1', A)],
                  [su('S1', None, ['cd sub', 'make c'], {'S': 's1'}, inv=2), su('S2', 'd2', B), su('S3', ABS + '/x', A)]))
+    # a location under the home directory
+    pats.append(([ex('E1', '~/vb', A)], [su('S1', None, B), su('S2', 'd1', A)]))
     # no builds at all
     pats.append(([ex('E1', 'd1', [])], [su('S1', None, [], benches=('b1', 'b2'), inv=2)]))
     out = []
